@@ -499,6 +499,10 @@ static void sec_transfer(Ctx& ctx, uint64_t) {
   if (z0 > 0 && r.coin(0.3)) zin = (z0 - 1 + r.range(-1, 1) + 60) % 60 + 1;
   int zi; bool npin; double xin, yin;
   try { UTMUPS::Forward(lat, lon, zi, npin, xin, yin, zin); } catch (const GeographicErr&) { ctx.count("transfer/input-not-representable", 0, true); return; }
+  // the same UTM point given in the OTHER hemisphere's convention (northing continued across the equator: documented as legal,
+  // e.g. northp = true with y < 0): the flag of the input then disagrees with the hemisphere the point is in
+  bool continued = false;
+  if (zi > 0 && r.coin(0.4)) { npin = !npin; yin += npin ? -spec::FN_UTM_S : spec::FN_UTM_S; continued = true; }
   int zoneout;
   switch (r.below(8)) { case 0: zoneout = zin; break; case 1: zoneout = spec::MATCH; break; case 2: zoneout = spec::STANDARD; break; case 3: zoneout = spec::UTM; break;
     case 4: zoneout = zin > 0 ? (zin - 1 + r.range(-1, 1) + 60) % 60 + 1 : 0; break; case 5: zoneout = r.range(-5, 61); break; case 6: zoneout = 0; break; default: zoneout = spec::INVALID; }
@@ -506,7 +510,7 @@ static void sec_transfer(Ctx& ctx, uint64_t) {
   if (r.coin(0.03)) { zin = r.coin() ? 61 : -1; }        // illegal zonein
   if (r.coin(0.03)) { zin = spec::INVALID; }
   std::string cls = std::string("transfer/") + (zin == spec::INVALID ? "invalid-in" : zin < 0 || zin > 60 ? "illegal-zonein" : zin == 0 ? "from-ups" : "from-utm") + "/" +
-    (zoneout < -4 || zoneout > 60 ? "illegal-zoneout" : zoneout == spec::INVALID ? "to-invalid" : zoneout < 0 ? "to-pseudozone" : zoneout == 0 ? "to-ups" : zoneout == zin ? "same-zone" : "to-other-utm") + (npout != npin ? "/hemisphere-change" : "");
+    (zoneout < -4 || zoneout > 60 ? "illegal-zoneout" : zoneout == spec::INVALID ? "to-invalid" : zoneout < 0 ? "to-pseudozone" : zoneout == 0 ? "to-ups" : zoneout == zin ? "same-zone" : "to-other-utm") + (npout != npin ? "/hemisphere-change" : "") + (continued ? "/continued-northing-in" : "");
   ctx.count(cls, vh::hmix(vh::hmix(vh::hmix(17, xin), yin), (uint64_t)(zin + 8) * 1000 + (zoneout + 8) * 4 + npin * 2 + npout));
   J in = J().i("zonein", zin).b("northpin", npin).f("xin", xin).f("yin", yin).i("zoneout", zoneout).b("northpout", npout);
   if (ctx.want_sample(cls)) ctx.sample(cls, in);
